@@ -163,6 +163,9 @@ func (p *Program) callers() map[*ssa.Function][]*ssa.Function {
 func (v *Verifier) underContractFor(key string) bool {
 	fc := v.CS.Funcs[key]
 	if fc == nil {
+		fc = v.CS.Funcs[altRecvKey(key)]
+	}
+	if fc == nil {
 		return false
 	}
 	for _, c := range fc.Clauses {
@@ -652,4 +655,68 @@ func (v *Verifier) defaultRedirectContract(fn *ssa.Function, callers map[*ssa.Fu
 	fc.Clauses = append(fc.Clauses, &Clause{Kind: "ensures", Label: "target_from_configuration", Props: []string{v.Prop}, Text: "each Redirect(?ro) => query_only(ro.RedirectPath)", Expr: n, Default: true})
 	v.VerifyFunc(fc)
 	return true
+}
+
+// handlerFrameSites: the Fire summary lets registered handlers rewrite only the
+// lock and confirm fields of the context user. This sweep checks that frame
+// against the handlers the library itself registers: a handler (or something it
+// calls, statically, up to depth 4) that puts any other field of a user record
+// is a site.
+var fireFrame = map[string]bool{"PutAttemptCount": true, "PutLastAttempt": true, "PutLocked": true, "PutConfirmed": true, "PutConfirmSelector": true, "PutConfirmVerifier": true}
+
+func (v *Verifier) handlerFrameSites(fn *ssa.Function) []sweepSite {
+	p := v.Prog
+	var out []sweepSite
+	for _, b := range fn.Blocks {
+		for _, ins := range b.Instrs {
+			c, ok := ins.(ssa.CallInstruction)
+			if !ok {
+				continue
+			}
+			callee := c.Common().StaticCallee()
+			if callee == nil || callee.Pkg == nil || callee.Pkg.Pkg.Path() != abPkg || callee.Signature.Recv() == nil {
+				continue
+			}
+			if !strings.HasSuffix(callee.Signature.Recv().Type().String(), ".Events") || (callee.Name() != "Before" && callee.Name() != "After") || len(c.Common().Args) < 3 {
+				continue
+			}
+			h := p.handlerOf(c.Common().Args[2])
+			if h == nil || !p.inRepo(h) {
+				continue
+			}
+			seen := map[*ssa.Function]bool{}
+			var bad []string
+			var walk func(f *ssa.Function, d int)
+			walk = func(f *ssa.Function, d int) {
+				if f == nil || seen[f] || d > 4 || f.Blocks == nil {
+					return
+				}
+				seen[f] = true
+				for _, bb := range f.Blocks {
+					for _, i2 := range bb.Instrs {
+						cc, ok := i2.(ssa.CallInstruction)
+						if !ok {
+							continue
+						}
+						cm := cc.Common()
+						if cm.IsInvoke() {
+							n := cm.Method.Name()
+							if strings.HasPrefix(n, "Put") && isUserIface(cm.Value.Type()) && !fireFrame[n] {
+								bad = append(bad, n+" at "+p.posOf(i2))
+							}
+							continue
+						}
+						if sc := cm.StaticCallee(); sc != nil && p.inRepo(sc) {
+							walk(sc, d+1)
+						}
+					}
+				}
+			}
+			walk(h, 0)
+			for _, w := range bad {
+				out = append(out, sweepSite{p.posOf(ins), "handler " + p.funcKey(h) + " writes a record field outside the frame the event summary assumes: " + w})
+			}
+		}
+	}
+	return out
 }
